@@ -8,11 +8,13 @@ import (
 	"bytes"
 	"fmt"
 	"math/big"
+	"os"
 	"runtime"
 	"sort"
 	"strings"
 	"sync"
 	"sync/atomic"
+	"syscall"
 	"time"
 
 	"github.com/ElrondNetwork/elrond-go/config"
@@ -951,6 +953,22 @@ func WaitUnblocked(tsm data.StorageManager, limit time.Duration) bool {
 			time.Sleep(50 * time.Microsecond)
 		}
 	}
+}
+
+// RaceExitGuard makes a -race build exit with the harness's own exit code: by default the race detector turns the
+// exit code into 66 once any race was reported, even with halt_on_error=0. Race reports are evidence only for
+// C09/C10 (they are parsed from the GORACE log), so the process re-executes itself once with exitcode=0.
+func RaceExitGuard() {
+	g := os.Getenv("GORACE")
+	if g == "" || strings.Contains(g, "exitcode=") {
+		return
+	}
+	exe, err := os.Executable()
+	if err != nil {
+		return
+	}
+	_ = os.Setenv("GORACE", g+" exitcode=0")
+	_ = syscall.Exec(exe, os.Args, os.Environ())
 }
 
 // Short renders the first bytes of a root
